@@ -1,6 +1,6 @@
 (* Property C05 -- a (re)joining node resynchronises to exactly the primary's data *)
 (* Statements only: each theorem restates the proved lemma's statement and is closed by [exact]. *)
-From NunDB Require Import Model.Base Model.Pending Model.Parse Model.Node Model.Oplog Model.Cluster Proofs.PendingProofs Proofs.DbProofs Proofs.ClusterProofs Proofs.SyncProofs.
+From NunDB Require Import Model.Base Model.Pending Model.Parse Model.Node Model.Oplog Model.Cluster Proofs.PendingProofs Proofs.DbProofs Proofs.ClusterProofs Proofs.SyncProofs Proofs.OplogProofs Proofs.IncrSyncProofs.
 Local Open Scope Z_scope.
 
 (* the LIVE replication line (with its version field) round-trips byte for byte, values with spaces, numeric-first and empty values included *)
@@ -60,3 +60,141 @@ Theorem C05_sync_line_numeric_first :
   parse_request "replicate d1 k 12 abc" = POk (RqReplicateSet "d1" "k" "abc" 12).
 Proof. exact sync_line_numeric_first. Qed.
 Print Assumptions C05_sync_line_numeric_first.
+
+(* UNBOUNDED: for any log the writer can produce and any `since`, the incremental catch-up does not panic and has a line for every key written or removed at or after `since` (replicate with the CURRENT value, or replicate-remove, decided by the key's last record) -- no operation accepted while the node was away is left out (after the marker-id repair) *)
+Theorem C05_incr_sync_covers :
+  forall (x : cnode) (since : N),
+         decodable x ->
+         meta_keys (cn_log x) ->
+         (N.of_nat (Datatypes.length (cn_keymap x)) < marker_snapshot)%N ->
+         exists ls : list str,
+           incr_sync_lines x since = Some ls /\
+           (forall r : oprec,
+            In r (cn_log x) ->
+            (since <= r_time r)%N ->
+            (r_op r <= 1)%N ->
+            exists (dbn k : str) (r' : oprec),
+              name_of_id (n_idmap (cn_node x)) (r_db r) = Some dbn /\
+              key_of_id (cn_keymap x) (r_key r) = Some k /\
+              spec_last (cn_log x) since (r_db r, r_key r) = Some r' /\
+              (r_op r' = 0%N /\
+               (exists d : db,
+                  get_db (cn_node x) dbn = Some d /\
+                  In ("replicate " +++ dbn +++ " " +++ k +++ " " +++ fst (get_key_value_new d k)) ls) \/
+               r_op r' = 1%N /\ In ("replicate-remove " +++ dbn +++ " " +++ k) ls)).
+Proof. exact incr_sync_covers_fixed. Qed.
+Print Assumptions C05_incr_sync_covers.
+
+(* the hypotheses of the coverage theorem are an invariant of the replication thread's log writer *)
+Theorem C05_decodable_invariant :
+  forall (x : cnode) (rq : request) (id : N) (x' : cnode),
+         decodable x ->
+         logged_request rq ->
+         times_le (cn_log x) id ->
+         repl_oplog x rq id = (x', Some id) -> decodable x' /\ times_le (cn_log x') id.
+Proof. exact repl_oplog_keeps_decodable. Qed.
+Print Assumptions C05_decodable_invariant.
+
+Theorem C05_meta_keys_invariant :
+  forall (x : cnode) (rq : request) (id : N) (x' : cnode) (o : option N),
+         meta_keys (cn_log x) -> repl_oplog x rq id = (x', o) -> meta_keys (cn_log x').
+Proof. exact repl_oplog_keeps_meta_keys. Qed.
+Print Assumptions C05_meta_keys_invariant.
+
+(* exactness: every line comes from a log record that is the last of its key, at or after `since` (or the single stale record at index 1 the binary search may return when no record carries exactly `since`) *)
+Theorem C05_incr_sync_only_touched :
+  forall (x : cnode) (since : N) (ls : list str),
+         sorted_times (cn_log x) = true ->
+         recs_decodable x ->
+         incr_sync_lines x since = Some ls ->
+         exists sls : list sline,
+           ls = map (render (cn_node x)) sls /\
+           (forall sl : sline,
+            In sl sls ->
+            exists (r : oprec) (l1 l2 : list oprec),
+              cn_log x = l1 ++ r :: l2 /\
+              nokey (kof r) l2 /\
+              sline_of x r = Some sl /\
+              ((since <= r_time r)%N \/
+               nth_error (cn_log x) 1 = Some r /\ (forall r0 : oprec, In r0 (cn_log x) -> r_time r0 <> since))).
+Proof. exact incr_sync_only_touched. Qed.
+Print Assumptions C05_incr_sync_only_touched.
+
+Theorem C05_incr_sync_only_touched_exact :
+  forall (x : cnode) (since : N) (ls : list str),
+         sorted_times (cn_log x) = true ->
+         recs_decodable x ->
+         incr_sync_lines x since = Some ls ->
+         (exists r0 : oprec, In r0 (cn_log x) /\ r_time r0 = since) ->
+         exists sls : list sline,
+           ls = map (render (cn_node x)) sls /\
+           (forall sl : sline,
+            In sl sls ->
+            exists r : oprec,
+              In r (cn_log x) /\
+              (since <= r_time r)%N /\ spec_last (cn_log x) since (kof r) = Some r /\ sline_of x r = Some sl).
+Proof. exact incr_sync_only_touched_exact. Qed.
+Print Assumptions C05_incr_sync_only_touched_exact.
+
+Theorem C05_incr_sync_one_line_per_key :
+  forall (x : cnode) (since : N) (ls : list str),
+         sorted_times (cn_log x) = true ->
+         recs_decodable x ->
+         decode_inj x ->
+         incr_sync_lines x since = Some ls ->
+         exists sls : list sline, ls = map (render (cn_node x)) sls /\ NoDup (touched sls).
+Proof. exact incr_sync_one_line_per_key. Qed.
+Print Assumptions C05_incr_sync_one_line_per_key.
+
+(* lines are in the order of the keys' last records *)
+Theorem C05_incr_sync_order :
+  forall (x : cnode) (since : N) (ls : list str),
+         sorted_times (cn_log x) = true ->
+         recs_decodable x ->
+         incr_sync_lines x since = Some ls ->
+         forall (l1 : list oprec) (ra : oprec) (l2 : list oprec) (rb : oprec) (l3 : list oprec),
+         cn_log x = l1 ++ ra :: l2 ++ rb :: l3 ->
+         (since <= r_time ra)%N ->
+         nokey (kof ra) (l2 ++ rb :: l3) ->
+         nokey (kof rb) l3 ->
+         exists (sla slb : sline) (p1 p2 p3 : list str),
+           sline_of x ra = Some sla /\
+           sline_of x rb = Some slb /\ ls = p1 ++ render (cn_node x) sla :: p2 ++ render (cn_node x) slb :: p3.
+Proof. exact incr_sync_order. Qed.
+Print Assumptions C05_incr_sync_order.
+
+(* non-vacuity and the repaired case: the key with id 2 is covered although a snapshot record follows *)
+Theorem C05_covers_example :
+  let r := {| r_time := 111; r_key := 2; r_db := 1; r_op := 0 |} in
+         In r (cn_log ex) /\
+         (110 <= r_time r)%N /\
+         (r_op r <= 1)%N /\
+         name_of_id (n_idmap (cn_node ex)) (r_db r) = Some "d1" /\
+         key_of_id (cn_keymap ex) (r_key r) = Some "k2" /\
+         (exists d : db, get_db (cn_node ex) "d1" = Some d /\ fst (get_key_value_new d "k2") = "c") /\
+         spec_last (cn_log ex) 110 (r_db r, r_key r) = Some r /\
+         (exists ls : list str, incr_sync_lines ex 110 = Some ls /\ In "replicate d1 k2 c" ls).
+Proof. exact covers_fixed_example. Qed.
+Print Assumptions C05_covers_example.
+
+Theorem C05_create_db_line_kept_example :
+  In {| r_time := 104; r_key := marker_create; r_db := 1; r_op := 2 |} (cn_log ex) /\
+         create_db_line (cn_node ex) "d1" = "create-db d1 tok" /\
+         incr_sync_lines ex 104 =
+         Some
+           ["create-db d1 tok"; "replicate d1 k2 c"; "replicate-remove d1 k1"; "replicate d1 k0 a2";
+            "replicate-snapshot d1"; "replicate d1 k3 d"].
+Proof. exact create_db_line_kept_example. Qed.
+Print Assumptions C05_create_db_line_kept_example.
+
+(* the redundant stale line (harmless: a value the joiner already has) *)
+Theorem C05_stale_line_refuted :
+  cn_log ex3 =
+         [{| r_time := 104; r_key := marker_create; r_db := 1; r_op := 2 |};
+          {| r_time := 107; r_key := 0; r_db := 1; r_op := 0 |};
+          {| r_time := 109; r_key := 1; r_db := 1; r_op := 0 |}] /\
+         decodable ex3 /\
+         incr_sync_lines ex3 108 = Some ["replicate d1 k0 a"; "replicate d1 k1 b"] /\
+         spec_last (cn_log ex3) 108 (1%N, 0%N) = None.
+Proof. exact only_touched_refuted. Qed.
+Print Assumptions C05_stale_line_refuted.
